@@ -1086,8 +1086,9 @@ class PDFDocument:
             xref: PDFBaseXRef = PDFXRefStream()
             xref.load(parser)
         else:
-            if token is parser.KEYWORD_XREF:
-                parser.nextline()
+            if token is not parser.KEYWORD_XREF:
+                raise PDFNoValidXRef(f"xref keyword not found at {start}: {token!r}")
+            parser.nextline()
             xref = PDFXRef()
             xref.load(parser)
         xrefs.append(xref)
